@@ -20,6 +20,11 @@ static SUT_PEAK: AtomicIsize = AtomicIsize::new(0);
 static SUT_ALLOCS: AtomicIsize = AtomicIsize::new(0);
 static SUT_MAX_SINGLE: AtomicIsize = AtomicIsize::new(0);
 
+/// The domain control is in right now (SUT while inside a call into ross-protocol).
+pub fn domain() -> u8 {
+    DOMAIN.load(Relaxed)
+}
+
 pub struct Counting;
 
 const HDR: usize = 16;
